@@ -675,22 +675,30 @@ M("C13-pinned-local", "C13", LOC, '''        def fun(x):
 M("C13-pinned-r5s", "C13", R5S, '''        # Individuals are ordered by the problem's own direction: best first.
         sorted_individuals = sorted(individuals, reverse=True)''', '''        minimize = not individuals[0].problem.maximize
         sorted_individuals = sorted(individuals, reverse=minimize)''', ["R13.3"], "pinned defect: direction applied twice in R5S")
-M("C13-topk-swapped", "C13", POP, "topk_indices = np.argsort(self.fitnesses)[-k:] if self.problem.maximize else np.argsort(self.fitnesses)[:k]", "topk_indices = np.argsort(self.fitnesses)[:k] if self.problem.maximize else np.argsort(self.fitnesses)[-k:]", ["R13.2"], "topk keeps the worst")
-M("C13-tournament-swapped", "C13", SEA, '''            np.argmax(tournament_fitnesses, axis=1)
+T("C13-t-topk-swapped", "C13", POP, "topk_indices = np.argsort(self.fitnesses)[-k:] if self.problem.maximize else np.argsort(self.fitnesses)[:k]", "topk_indices = np.argsort(self.fitnesses)[:k] if self.problem.maximize else np.argsort(self.fitnesses)[-k:]", "topk keeps the worst: wrong but symmetric under f -> -f, so C13 holds")
+M("C12-topk-swapped", "C12", POP, "topk_indices = np.argsort(self.fitnesses)[-k:] if self.problem.maximize else np.argsort(self.fitnesses)[:k]", "topk_indices = np.argsort(self.fitnesses)[:k] if self.problem.maximize else np.argsort(self.fitnesses)[-k:]", ["R12.3"], "topk keeps the worst")
+T("C13-t-tournament-swapped", "C13", SEA, '''            np.argmax(tournament_fitnesses, axis=1)
             if population_copy.problem.maximize
             else np.argmin(tournament_fitnesses, axis=1)''', '''            np.argmin(tournament_fitnesses, axis=1)
             if population_copy.problem.maximize
-            else np.argmax(tournament_fitnesses, axis=1)''', ["R13.2"], "tournament picks the loser")
+            else np.argmax(tournament_fitnesses, axis=1)''', "tournament picks the loser: wrong but symmetric under f -> -f, so C13 holds")
 M("C13-tournament-one-armed", "C13", SEA, '''            np.argmax(tournament_fitnesses, axis=1)
             if population_copy.problem.maximize
             else np.argmin(tournament_fitnesses, axis=1)''', '''            np.argmin(tournament_fitnesses, axis=1)''', ["R13.1"], "tournament ignores the direction")
-M("C13-worse-than-swapped", "C13", PROB, '''        if self.maximize:
+T("C13-t-worse-than-swapped", "C13", PROB, '''        if self.maximize:
             return first_fitness < second_fitness
         else:
             return first_fitness > second_fitness''', '''        if self.maximize:
             return first_fitness > second_fitness
         else:
-            return first_fitness < second_fitness''', ["R13.2"], "worse_than reversed")
+            return first_fitness < second_fitness''', "worse_than reversed: wrong but symmetric under f -> -f, so C13 holds")
+M("C04-worse-than-swapped", "C04", PROB, '''        if self.maximize:
+            return first_fitness < second_fitness
+        else:
+            return first_fitness > second_fitness''', '''        if self.maximize:
+            return first_fitness > second_fitness
+        else:
+            return first_fitness < second_fitness''', ["R04.3"], "worse_than reversed")
 M("C13-worse-than-nonstrict", "C13", PROB, '''        if self.maximize:
             return first_fitness < second_fitness
         else:
@@ -708,10 +716,12 @@ M("C13-de-mask-same", "C13", DEPY, '''            (trial_population.fitnesses >=
             else (trial_population.fitnesses <= parent_population.fitnesses)
         )
         return (''', ["R13.2"], "DE replacement mask identical for both directions")
-M("C13-cma-sign-swapped", "C13", CMA, "        sign = -1.0 if self._problem.maximize else 1.0", "        sign = 1.0 if self._problem.maximize else -1.0", ["R13.2"], "CMA sign adapter reversed")
+T("C13-t-cma-sign-swapped", "C13", CMA, "        sign = -1.0 if self._problem.maximize else 1.0", "        sign = 1.0 if self._problem.maximize else -1.0", "CMA sign adapter reversed: wrong but symmetric under f -> -f, so C13 holds")
 M("C13-local-no-unadapt", "C13", LOC, "        ind.fitness = self._sign * intermediate_result.fun", "        ind.fitness = intermediate_result.fun", ["R13.6"], "recorded local-search iterates keep the negated value")
-M("C13-best-min", "C13", TREE, "        return max(deme.best_individual for deme in self.leaves)", "        return min(deme.best_individual for deme in self.leaves)", ["R13.3"], "best leaf individual = worst")
-M("C13-demelimit-ascending", "C13", FIL, "candidates[deme].individuals = sorted(candidates[deme].individuals, reverse=True)[: self.limit]", "candidates[deme].individuals = sorted(candidates[deme].individuals)[: self.limit]", ["R13.3"], "DemeLimit keeps the worst")
+T("C13-t-best-min", "C13", TREE, "        return max(deme.best_individual for deme in self.leaves)", "        return min(deme.best_individual for deme in self.leaves)", "best leaf individual = worst: wrong but symmetric under f -> -f, so C13 holds")
+M("C04-best-min", "C04", TREE, "        return max(deme.best_individual for deme in self.leaves)", "        return min(deme.best_individual for deme in self.leaves)", ["R04.3"], "best leaf individual = worst")
+T("C13-t-demelimit-ascending", "C13", FIL, "candidates[deme].individuals = sorted(candidates[deme].individuals, reverse=True)[: self.limit]", "candidates[deme].individuals = sorted(candidates[deme].individuals)[: self.limit]", "DemeLimit keeps the worst: wrong but symmetric under f -> -f, so C13 holds")
+M("C10-demelimit-ascending", "C10", FIL, "candidates[deme].individuals = sorted(candidates[deme].individuals, reverse=True)[: self.limit]", "candidates[deme].individuals = sorted(candidates[deme].individuals)[: self.limit]", ["R10.3"], "DemeLimit keeps the worst")
 M("C13-nbc-raw-sort", "C13", NBC, "        sorted_individuals = sorted(evaluated_individuals, reverse=True)", "        sorted_individuals = sorted(evaluated_individuals, key=lambda ind: ind.fitness)", ["R13.1"], "NBC orders by raw fitness")
 M("C13-lt-swapped-args", "C13", IND, "        return self.problem.worse_than(self.fitness, other.fitness)", "        return self.problem.worse_than(other.fitness, self.fitness)", ["R13.4"], "Individual order reversed")
 M("C13-merge-cond-no-sign", "C13", "pyhms/cluster/merge_conditions.py", "            return (-1 if self.problem.maximize else 1) * self.problem.evaluate(x)", "            return self.problem.evaluate(x)", ["R13.5", "R13.1"], "merge condition's local search ignores the direction")
@@ -984,14 +994,16 @@ M("C04-tree-best-active", "C04", TREE, "        return max(deme.best_individual 
 M("C04-all-individuals-last-metaepochs", "C04", ABS, "        return [ind for pop in self.history for ind in pop]", "        return [ind for pop in self.history[-50:] for ind in pop]", ["R04.1"], "only the last 50 generations are searched")
 M("C04-cached-best", "C04", ABS, "        return max(self.all_individuals) if self.all_individuals else None", "        if not self.all_individuals:\n            return None\n        self._best_cache = max(self.current_population + ([self._best_cache] if getattr(self, '_best_cache', None) else []))\n        return self._best_cache", ["R04.1"], "incremental best cache")
 M("C04-fun-from-leaf", "C04", HMS, "        fun=hms_tree.best_individual.fitness,", "        fun=hms_tree.best_leaf_individual.fitness,", ["R04.4"], "fun from the best leaf, x from the global best")
-M("C04-elites-from-offspring", "C04", SEA, "        top_k_parent_population = parent_population.topk(self.k_elites)", "        top_k_parent_population = offspring_population.topk(self.k_elites)", ["R04.5"], "elites taken from the offspring")
-M("C04-cut-n-minus-one", "C04", SEA, "        return offspring_population.merge(top_k_parent_population).topk(parent_population.size)", "        return offspring_population.merge(top_k_parent_population).topk(parent_population.size - 1).merge(offspring_population.topk(1))", ["R04.5"], "selection rewritten")
+T("C04-t-elites-from-offspring", "C04", SEA, "        top_k_parent_population = parent_population.topk(self.k_elites)", "        top_k_parent_population = offspring_population.topk(self.k_elites)", "elites taken from the offspring: the best evaluated offspring still survives (C04 holds; C12 does not)")
+M("C12-elites-from-offspring", "C12", SEA, "        top_k_parent_population = parent_population.topk(self.k_elites)", "        top_k_parent_population = offspring_population.topk(self.k_elites)", ["R12.3", "R12.2"], "elites taken from the offspring")
+T("C04-t-cut-n-minus-one", "C04", SEA, "        return offspring_population.merge(top_k_parent_population).topk(parent_population.size)", "        return offspring_population.merge(top_k_parent_population).topk(parent_population.size - 1).merge(offspring_population.topk(1))", "selection rewritten: the best offspring and the elites still survive")
 M("C04-intermediate-eval", "C04", SEA, '''                TournamentSelection(),
                 ArithmeticCrossover(probability=p_crossover, evaluate_fitness=False),
                 GaussianMutation(std=mutation_std, bounds=problem.bounds, probability=p_mutation),''', '''                TournamentSelection(),
                 ArithmeticCrossover(probability=p_crossover, evaluate_fitness=True),
                 GaussianMutation(std=mutation_std, bounds=problem.bounds, probability=p_mutation),''', ["R04.5"], "crossover children evaluated, then mutated away unrecorded")
-M("C04-de-same-mask", "C04", DEPY, "            trial_population[new_population_indices].merge(parent_population[~new_population_indices]).to_individuals()", "            trial_population[new_population_indices].merge(parent_population[new_population_indices]).to_individuals()", ["R04.5"], "DE keeps parents of the replaced slots")
+T("C04-t-de-same-mask", "C04", DEPY, "            trial_population[new_population_indices].merge(parent_population[~new_population_indices]).to_individuals()", "            trial_population[new_population_indices].merge(parent_population[new_population_indices]).to_individuals()", "DE keeps parents of the replaced slots: every better trial is still kept and the dropped parents were recorded a generation earlier (C04 holds; C12 does not)")
+M("C12-de-same-mask", "C12", DEPY, "            trial_population[new_population_indices].merge(parent_population[~new_population_indices]).to_individuals()", "            trial_population[new_population_indices].merge(parent_population[new_population_indices]).to_individuals()", ["R12.2", "R12.3"], "DE keeps parents of the replaced slots")
 M("C04-popsize-from-maxfun", "C04", HMS, "            pop_size=get_default_population_size(bounds, tree_level=0),", "            pop_size=get_default_population_size(bounds, tree_level=0) if not maxfun or maxfun > 500 else 10,", ["R04.6"], "population size depends on the budget")
 M("C04-history-sorted", "C04", ABS, "        return self.history[-1]", "        last = self.history[-1]\n        last.sort()\n        return last", ["R04.2"], "current_population sorts the recorded generation in place")
 T("C04-t-tree-best-all-demes", "C04", TREE, "        return max(deme.best_individual for level in self._levels for deme in level if deme.best_individual)", "        return max(deme.best_individual for _, deme in self.all_demes if deme.best_individual)", "tree best via all_demes")
